@@ -22,6 +22,9 @@ OpCall(f, a) ==
 InfoFuncs == {"ISERROR", "ISERR", "ISNA", "NA", "ISNUMBER", "ISTEXT", "ISBLANK"}
 InfoCall(f, a) ==
     CASE f = "NA" -> Err("#N/A")
+      [] Len(a) >= 1 /\ a[1].t = "open" -> Open        \* an undetermined argument: nothing is known about its type
+      \* "some error, which one is left open": an error all the same
+      [] Len(a) >= 1 /\ a[1].t = "anyerr" -> IF f = "ISERROR" THEN Bool(TRUE) ELSE Open
       [] f = "ISERROR" -> Bool(a[1].t = "err")
       [] f = "ISERR"   -> Bool(a[1].t = "err" /\ a[1].v # "#N/A")
       [] f = "ISNA"    -> Bool(a[1].t = "err" /\ a[1].v = "#N/A")
